@@ -8,6 +8,45 @@ ASSUMPTIONS = []
 DIR = "Tracked(d): Tracked<&mut Dir>"
 DIR_RO = "Tracked(d): Tracked<&Dir>"
 
+# std::fs::remove_file (E9 + E4): Ok means the file is gone, Err means nothing changed (POSIX unlink)
+REMOVE_FILE_CONTRACT = """
+        ensures r is Ok ==> final(d).files == old(d).files.remove(%(p)s) && final(d).rm_failed == old(d).rm_failed,
+                r is Err ==> final(d).files == old(d).files && final(d).rm_failed,
+"""
+
+# std::fs::rename (E9 + E4): POSIX rename: Ok means `from` existed and now is `to` (replacing it); Err: nothing changed
+RENAME_CONTRACT = """
+        ensures r is Ok ==> old(d).files.contains_key(from) && final(d).files == old(d).files.remove(from).insert(to, old(d).files[from]),
+                r is Err ==> final(d).files == old(d).files,
+                final(d).rm_failed == old(d).rm_failed,
+"""
+
+LOGGER_SPEC = """
+/// the path `get_current_file_full_path` computes (uninterpreted; `None` = the file being written)
+pub uninterp spec fn log_path(l: RollingLogger, ts: Option<String>) -> PathBuf;
+/// the file an open writer appends to
+pub uninterp spec fn wpath(w: LineWriter<File>) -> PathBuf;
+impl RollingLogger {
+    pub open spec fn cur(self) -> PathBuf { log_path(self, None) }
+}
+"""
+
+# the deletion loop shared (textually) by write_all and archive_file: `count` starts at max and counts removals
+DELETE_LOOP_INV = """
+                invariant_except_break
+                    it.index@ == count - %(m)s,
+                    count <= %(l)s.len(),
+                invariant
+                    d.wf(),
+                    %(m)s <= count <= %(l)s.len() + 1,
+                    d.names().subset_of(d0.names()),
+                    forall|p: PathBuf| #[trigger] d.files.contains_key(p) ==> d.files[p] == d0.files[p],
+                    forall|k: int| count - %(m)s <= k < %(l)s.len() ==> d.files.contains_key(#[trigger] %(l)s[k]),
+                    !d.rm_failed ==> forall|k: int| 0 <= k < count - %(m)s ==> !d.files.contains_key(#[trigger] %(l)s[k]),
+                ensures
+                    %(m)s >= 1 ==> count == %(l)s.len() + 1,
+"""
+
 
 def ext_verbatim(u, sf, modname, uses, type_paths, impl_paths, opaque_names):
     """E1: type definitions AND the listed trait impls copied byte-for-byte into a plain-Rust module outside verus!{}
@@ -41,7 +80,7 @@ def build(u):
     plog = u.src("proxy_agent/src/common/logger.rs")
     for f in ("ext_types.rs",):
         u.raw(open(os.path.join(COMMON, f)).read())
-    u.raw("use std::path::{Path, PathBuf};")
+    u.raw("use std::path::{Path, PathBuf};\nuse std::fs::{self, File};\nuse std::io::{LineWriter, Write};")
     u.raw_file("deps.rs")
     u.raw_file("spec.rs")
 
@@ -62,6 +101,47 @@ def build(u):
         u.take_fn(mh, "get_date_time_string_with_milliseconds", external_body=True)
         u.take_fn(mh, "get_date_time_unix_nano", external_body=True)
 
+    # ---- rolling logger ----
+    lg = u.src("proxy_agent_shared/src/logger.rs")
+    rl = u.src("proxy_agent_shared/src/logger/rolling_logger.rs")
+    with u.mod("logger", uses="use crate::misc_helpers;"):
+        u.raw("pub type LoggerLevel = log::Level;")
+        u.take_fn(lg, "get_log_header", external_body=True)
+        with u.mod("rolling_logger", uses="use crate::misc_helpers;\nuse crate::result::Result;\nuse log::Level;\nuse std::fs::{self, File, OpenOptions};\nuse std::io::{LineWriter, Write};\nuse std::path::PathBuf;"):
+            u.take(rl, "RollingLogger", "struct")
+            u.raw(LOGGER_SPEC)
+            with u.impl_(rl, "RollingLogger"):
+                u.take_fn(rl, "RollingLogger::open_file", external_body=True, ghost=DIR, contract="""
+        requires old(d).wf(),
+        ensures r is Ok ==> final(d).files == created_if_absent(old(d).files, self.cur()) && wpath(r->Ok_0) == self.cur(),
+                r is Err ==> final(d).files == old(d).files,
+                final(d).rm_failed == old(d).rm_failed,
+""")
+                u.take_fn(rl, "RollingLogger::get_current_file_full_path", external_body=True, contract="""
+        ensures r == log_path(*self, timestamp),
+                timestamp is Some ==> r != self.cur(),
+""")
+                u.take_fn(rl, "RollingLogger::get_log_files", external_body=True, ghost=DIR_RO, contract="""
+        ensures r is Ok ==> is_listing(r->Ok_0@, *d) && r->Ok_0@.len() < usize::MAX,
+""")
+                u.take_fn(rl, "RollingLogger::archive_file", ghost=DIR,
+                          ghost_calls=[("get_log_files", None, "Tracked(d)")],
+                          e9=[("fs::rename(current_name, new_file_name)", None, "from: PathBuf, to: PathBuf, " + DIR, "current_name, new_file_name, Tracked(d)", "std::io::Result<()>", RENAME_CONTRACT,
+                               dict(name="vx_e9_rename_log", body="fs::rename(from, to)")),
+                              ("fs::remove_file(log)", None, "log: PathBuf, " + DIR, "log, Tracked(d)", "std::io::Result<()>", REMOVE_FILE_CONTRACT % dict(p="log"),
+                               dict(name="vx_e9_remove_log"))],
+                          pre_body="broadcast use axiom_fmt_i128;",
+                          loop_iter_names={0: "it"},
+                          loop_attrs={0: "#[verifier::loop_isolation(false)]"},
+                          loops={0: DELETE_LOOP_INV % dict(l="l", m="max_count")},
+                          hints=[("let log_files = self.get_log_files", None, "before", "let ghost dr = *d;"),
+                                 ("let max_count: usize", None, "before", "let ghost d0 = *d;\nlet ghost l = log_files@;"),
+                                 ],
+                          contract="""
+        requires old(d).wf(),
+                 self.max_log_file_count >= 1,
+        ensures final(d).wf(),
+""")
     # ---- proxy_agent ----
     with u.mod("common"):
         with u.mod("logger"):
@@ -82,23 +162,21 @@ def build(u):
                 u.take_fn(ar, "AuthorizationRulesForLogging::write_all", ret="", ghost=DIR,
                           ghost_calls=[("misc_helpers::search_files", None, "Tracked(d)"),
                                        ("misc_helpers::json_write_to_file", None, "Tracked(d)")],
-                          e9=[("std::fs::remove_file(file)", None, "file: &PathBuf, " + DIR, "file, Tracked(d)", "std::io::Result<()>", """
-        ensures r is Ok ==> final(d).files == old(d).files.remove(*file) && final(d).rm_failed == old(d).rm_failed,
-                r is Err ==> final(d).files == old(d).files && final(d).rm_failed,
-""", dict(name="vx_e9_remove_dump"))],
+                          e9=[("std::fs::remove_file(file)", None, "file: &PathBuf, " + DIR, "file, Tracked(d)", "std::io::Result<()>", REMOVE_FILE_CONTRACT % dict(p="*file"), dict(name="vx_e9_remove_dump"))],
                           pre_body="broadcast use axiom_fmt_path_display;\nbroadcast use axiom_fmt_error;\nbroadcast use axiom_fmt_io_error;",
                           loop_iter_names={0: "it"},
                           loop_attrs={0: "#[verifier::loop_isolation(false)]"},
-                          loops={0: """
-                invariant_except_break
-                    it.index@ == count - max_file_count,
-                    count <= files.len(),
-                invariant
-                    d.wf(),
-                ensures
-                    count <= files.len() + 1,
-"""},
+                          loops={0: DELETE_LOOP_INV % dict(l="files@", m="max_file_count")},
+                          hints=[("return;", None, "before", "proof { lemma_added_refl(*d); }"),
+                                 ("if files.len() >= max_file_count", None, "before", "let ghost d0 = *d;"),
+                                 ("for file in &files", None, "after", "proof { if !d.rm_failed { lemma_prefix_removed(files@, d0, *d, count - max_file_count); } }"),
+                                 ("let new_file_name", None, "before", "let ghost mid = *d;\nproof { if files.len() < max_file_count { lemma_prefix_removed(files@, d0, mid, 0); } }"),
+                                 ("misc_helpers::json_write_to_file", None, "after", "proof { lemma_added_one_count(mid, *d); lemma_subset_count(*d, mid); }")],
                           contract="""
         requires old(d).wf(),
+                 max_file_count >= 1,
         ensures final(d).wf(),
+                !final(d).rm_failed ==> within(*final(d), max_file_count as int) || final(d).files == old(d).files,  // @C19.write_all.at_most_max_dumps_for_any_start
+                !final(d).rm_failed ==> deleted_oldest_then_added_one(*old(d), *final(d)),  // @C19.write_all.oldest_removed_first
+                !final(d).rm_failed ==> final(d).count() >= min_int(old(d).count() as int, max_file_count - 1),  // @C19.write_all.keeps_allowed_number
 """)
